@@ -244,6 +244,10 @@ theorem step_events {s s' : State} {op : Op} {r : Res} (hw : WF s) (e : step s o
     simp only [step] at e
     obtain ⟨⟨e1, v⟩, _, e⟩ := bind_ok e
     cases e; exact EvStep.refl _
+  | normalizeSep b =>
+    simp only [step] at e
+    obtain ⟨h1, hcore, e⟩ := bind_ok e
+    cases e; exact EvStep.refl _
   | hashIgnoreCase c =>
     simp only [step] at e
     obtain ⟨v, _, e⟩ := bind_ok e
